@@ -28,6 +28,20 @@ Four drivers, all exhaustive over their bounds, all executing the real lena code
          the outer adapter requests after every m fills, i.e. it drives the inner one by the word
          (F^m R)*; equals post(reference on pre(values of the complete outer blocks)).
 
+The options of a FillRequestSeq are an axis of the word, split and frs drivers ("kwargs can contain
+bufsize or reset. See FillRequest", plus the buffer flag FillRequest demands). They configure the adapter
+the sequence wraps around itself for run(); its fill() and request() are documented as pre-processing +
+fill of / post-processing of the request of its FillRequest element, so
+  word   form frs is explored for every (bufsize in {1, n, n+1}, reset, buffer mode) of the sequence,
+         with the same model (shorter words for the combinations Split does not use);
+  split  form seq: the branch is a FillRequestSeq made by the user with every (bufsize in {1, n+1},
+         reset, buffer mode): equals run on the whole flow, like the tuple form;
+  frs    every (reset, buffer mode, yield_on_remainder) of the sequence: the reference gets the final
+         partial outer block with yield_on_remainder; with reset the element is reset after each outer
+         block - judged by the model when an outer block is a whole number of inner blocks, and always
+         by a differential: run() equals a twin sequence filled, requested and reset block by block by
+         the harness (the statement's first sentence with the sequence as the wrapped element).
+
 Method names are an axis of the run and word drivers: every element kind that has a method FillRequest
 takes the name of is also wrapped as mc.ref.c16_model.Renamed and handed over with fill="put",
 request="take", reset_name="clear" - once with nothing under the default names, once with unrelated
@@ -50,7 +64,8 @@ LEVEL = "model_checking"
 DESIGN_REF = "DESIGN.md section 5, C16"
 RULE = ("configurations = element kind x bufsize x buffer mode x reset x yield_on_remainder (x method "
         "names default / renamed / renamed with decoys under the default names, in the run driver and in "
-        "shorter bare words); for each, "
+        "shorter bare words; x bufsize, reset, buffer mode [, yield_on_remainder] of the FillRequestSeq "
+        "around it in the frs words, the seq form of split and the frs driver); for each, "
         "every F/R word up to the length bound is executed on a freshly built real object (a history "
         "is not extended past its first violation) and every flow length / Split bufsize / outer "
         "bufsize of the run, split and frs drivers is executed once; cases are distinct by "
@@ -88,7 +103,16 @@ ASSUMPTIONS = [
     "through these attribute names when they exist)",
     "Split: one branch, copy_buf default, Split bufsize in 1..2n+1, 1000, None; run-only elements are "
     "not put into Split (Split runs such a branch once per buffer by documented design)",
-    "FillRequestSeq outer adapter: reset=False, buffer_input=True (what Split passes)",
+    "FillRequestSeq options: words through a FillRequestSeq with bufsize in {1, n, n+1} x reset x "
+    "buffer_input|buffer_output (full word length for bufsize=1, reset=False, buffer_input=True - what "
+    "Split passes -, the shorter length of describe() for the others); Split around a user-made "
+    "FillRequestSeq with bufsize in {1, n+1} x reset x buffer mode for the kinds store, sum, freq "
+    "(shorter flows, see describe()); FillRequestSeq.run with bufsize 1..2n+1 x reset x buffer mode x "
+    "yield_on_remainder. The sequence's fill()/request() are taken to be independent of these options "
+    "(their docstrings name only pre-/post-processing around the FillRequest element). With the "
+    "sequence's reset=True and an outer block that is not a whole number of inner blocks, run() is "
+    "judged only against a twin sequence driven block by block (what a reset inside an inner block "
+    "means for that block is not stated); FillRequestSeq.reset() is called by that twin driver only",
     "construction errors (both / neither buffer mode, reset=None, missing methods) are outside: only "
     "valid configurations are enumerated",
 ]
@@ -111,8 +135,8 @@ def run_limit(length):
 
 def _dom(tier):
     if tier == "thorough":
-        return dict(N=6, L=14, Lform=11, Lnames=10, run_blocks=4, split_len=4)
-    return dict(N=5, L=12, Lform=9, Lnames=8, run_blocks=3, split_len=3)
+        return dict(N=6, L=14, Lform=11, Lnames=10, Louter=9, run_blocks=4, split_len=4, seq_len=3)
+    return dict(N=5, L=12, Lform=9, Lnames=8, Louter=7, run_blocks=3, split_len=3, seq_len=2)
 
 
 def describe(tier):
@@ -122,7 +146,10 @@ def describe(tier):
             "renamed methods, without and with decoys); run: flows of length 0..%(run_blocks)d*n+1, all "
             "three method namings; split: "
             "B in 1..2n+1, 1000, None, flows of length 0..%(split_len)d*max(n,B')+1; frs: outer bufsize "
-            "1..2n+1" % d)
+            "1..2n+1 x reset x buffer mode x yield_on_remainder of the sequence; sequence options: F/R "
+            "words of length <= %(Louter)d through a FillRequestSeq with bufsize in {1, n, n+1} x reset x "
+            "buffer mode, Split around a user-made FillRequestSeq with bufsize in {1, n+1} x reset x "
+            "buffer mode on flows of length 0..%(seq_len)d*max(n,B')+1" % d)
 
 
 # --------------------------------------------------------------------------------------------------
@@ -149,10 +176,49 @@ def _names(cfg):
     return cfg.get("names", "default")
 
 
+# The options of the FillRequestSeq a FillRequest stands in: "kwargs can contain bufsize or reset. See
+# FillRequest for more information on them" - and one of the buffer flags, which FillRequest demands.
+# They configure the adapter the sequence wraps around ITSELF for run(); the sequence's own fill()
+# ("preprocesses the value before filling FillRequest") and request() ("postprocesses the results
+# yielded from the FillRequest element") are documented without any reference to them.
+OUTER_DEFAULT = (1, False, "input")     # (bufsize, reset, buffer mode): what Split passes
+
+
+def _outer(cfg):
+    return tuple(cfg.get("outer", OUTER_DEFAULT))
+
+
+def _outer_kw(outer, yor=False):
+    m, oreset, obuffer = outer
+    kw = dict(bufsize=m, reset=oreset)
+    kw["buffer_input" if obuffer == "input" else "buffer_output"] = True
+    if yor:
+        kw["yield_on_remainder"] = True
+    return kw
+
+
+def outer_options(n, sizes):
+    """Every (bufsize, reset, buffer mode) of the sequence, simplest first; sizes: "all" - bufsize 1,
+    the block size of the inner adapter and one more than it; "ends" - 1 and one more."""
+    ms = sorted(set((1, n, n + 1) if sizes == "all" else (1, n + 1)))
+    return [(m, oreset, obuffer) for oreset in (False, True) for obuffer in ("input", "output")
+            for m in ms]
+
+
+def with_outer(cfg, outer):
+    if tuple(outer) == OUTER_DEFAULT:
+        return cfg
+    out = dict(cfg)
+    out["outer"] = list(outer)
+    return out
+
+
 def _cfg_of_case(case):
     cfg = {k: case[k] for k in ("kind", "n", "buffer", "reset", "yor")}
     if case.get("names", "default") != "default":
         cfg["names"] = case["names"]
+    if "outer" in case:
+        cfg["outer"] = list(case["outer"])
     return cfg
 
 
@@ -169,6 +235,24 @@ def shards(tier):
     for n in range(1, d["N"] + 1):
         out.append({"drv": "frs", "n": n})
     for n in range(1, d["N"] + 1):
+        for oreset in (False, True):
+            for oyor in (False, True):
+                for obuffer in ("input", "output"):
+                    if (oreset, obuffer, oyor) != (False, "input", False):
+                        out.append({"drv": "frs", "n": n, "outer": [oreset, obuffer, oyor]})
+    for n in range(1, d["N"] + 1):
+        for kind in SEQ_KINDS:
+            for oreset in (False, True):
+                for obuffer in ("input", "output"):
+                    out.append({"drv": "split", "form": "seq", "kind": kind, "n": n,
+                                "outer": [oreset, obuffer]})
+    for n in range(1, d["N"] + 1):
+        for kind in ("store", "sum"):
+            for oreset in (False, True):
+                for obuffer in ("input", "output"):
+                    out.append({"drv": "word", "form": "frs", "kind": kind, "n": n,
+                                "outer": [oreset, obuffer]})
+    for n in range(1, d["N"] + 1):
         for kind in ("store", "sum"):
             for form in ("frs", "split"):
                 out.append({"drv": "word", "form": form, "kind": kind, "n": n})
@@ -183,6 +267,9 @@ def shards(tier):
                 p = {"drv": "word", "form": "bare", "cfgs": [cfg]}
                 out.append(p)
     return out
+
+
+SEQ_KINDS = ("store", "sum", "freq")     # the kinds that are put into an explicit FillRequestSeq
 
 
 def _kw(cfg):
@@ -220,8 +307,7 @@ class _Target(object):
         if form == "bare":
             drv = self.fr
         elif form == "frs":
-            drv = lena.core.FillRequestSeq(_pre, self.fr, _post, bufsize=1, reset=False,
-                                           buffer_input=True)
+            drv = lena.core.FillRequestSeq(_pre, self.fr, _post, **_outer_kw(_outer(cfg)))
             self.pre, self.post = _pre, _post
         elif form == "split":
             drv = lena.core.Split([self.fr])
@@ -339,6 +425,8 @@ def judge_word(res, cfg, form, word, model, states, samples_limit=2):
             "reset": cfg["reset"], "yor": cfg["yor"], "word": word}
     if _names(cfg) != "default":
         case["names"] = _names(cfg)
+    if "outer" in cfg:
+        case["outer"] = list(cfg["outer"])
     off, over, first = _word_features(word, n)
     # everything that touches the code under test is inside a judged region: a failure to build the
     # object, or one in the replayed prefix, is an observation, not an accident of the harness
@@ -435,7 +523,7 @@ def judge_word(res, cfg, form, word, model, states, samples_limit=2):
              outcome=(cfg["kind"], cfg["reset"], n, shown_cum, problem[0] if problem else None))
     if problem is None:
         states.add((form, cfg["kind"], n, cfg["buffer"], cfg["reset"], cfg["yor"], _names(cfg))
-                   + _state(t, k, len(cum[0])))
+                   + (_outer(cfg) if "outer" in cfg else ()) + _state(t, k, len(cum[0])))
         if ev == "R":
             res.traces += 1
             if nontrivial:
@@ -447,6 +535,8 @@ def judge_word(res, cfg, form, word, model, states, samples_limit=2):
              "yield_on_remainder": cfg["yor"], "first_irregularity": first}
     if _names(cfg) != "default":
         cause["names"] = _names(cfg)
+    if "outer" in cfg:
+        cause["sequence_reset"], cause["sequence_buffer"] = _outer(cfg)[1], _outer(cfg)[2]
     if nb > 1 and branch is not None:
         # which of the zipped adapters: the first one is consumed to its end, the others are left
         # suspended at their last result
@@ -639,19 +729,29 @@ def judge_split(res, cfg, form, B, length):
     case = dict(cfg)
     case.update({"law": "split", "form": form, "B": B, "len": length})
     values = M.flow_values(kind, length)
-    fed = [_pre(v) for v in values] if form == "tuple" else values
+    wrapped = form in ("tuple", "seq")      # pre and post around the adapter
+    fed = [_pre(v) for v in values] if wrapped else values
     blocks = M.ref_blocks(kind, fed, n, cfg["reset"], False, "fill")
     expected = M.concat(blocks)
-    if form == "tuple":
+    if wrapped:
         expected = [_post(r) for r in expected]
     rel = _relation(B, n)
     base_cause = {"law": "split-around-fillrequest", "form": form, "split_bufsize": rel,
                   "kind_class": M.kind_class(kind), "buffer": cfg["buffer"], "reset": cfg["reset"],
                   "yield_on_remainder": cfg["yor"]}
+    if form == "seq":
+        base_cause["sequence_reset"], base_cause["sequence_buffer"] = _outer(cfg)[1], _outer(cfg)[2]
     nontrivial = length > n and rel != "equal"
     try:
         fr, _ = build_fr(cfg)
-        branch = fr if form == "bare" else (_pre, fr, _post)
+        if form == "bare":
+            branch = fr
+        elif form == "tuple":
+            branch = (_pre, fr, _post)
+        else:
+            # a FillRequestSeq made by the user, with options of its own: Split fills it with the
+            # buffer contents and requests it, like the one it makes itself from a tuple
+            branch = lena.core.FillRequestSeq(_pre, fr, _post, **_outer_kw(_outer(cfg)))
         split = lena.core.Split([branch], bufsize=B)
     except Exception as e:  # noqa
         res.case(nontrivial=nontrivial, outcome=("construction", type(e).__name__))
@@ -675,7 +775,7 @@ def judge_split(res, cfg, form, B, length):
             if got != expected:
                 problem = ("results-differ", got, expected)
         else:
-            unpost = [r[1] for r in got] if form == "tuple" else got
+            unpost = [r[1] for r in got] if wrapped else got
 
             class _M(object):
                 pass
@@ -697,19 +797,53 @@ def judge_split(res, cfg, form, B, length):
 # --------------------------------------------------------------------------------------------------
 # FillRequestSeq.run driver
 
-def judge_frs(res, cfg, m, length):
+def _element_by_blocks(el, values, m, reset, partial):
+    """The first sentence of the statement, read for an element that is a real object: what *el* yields
+    for each consecutive block of m values, filled and requested directly, *el* being reset between
+    blocks when *reset*; the final partial block only when *partial*."""
+    out = []
+    for start in range(0, len(values), m):
+        block = values[start:start + m]
+        if len(block) < m and not partial:
+            break
+        for v in block:
+            el.fill(v)
+        out.extend(el.request())
+        if reset:
+            el.reset()
+    return out
+
+
+def judge_frs(res, cfg, m, length, oreset=False, obuffer="input", oyor=False):
+    """FillRequestSeq(pre, FillRequest(el, n), post, bufsize=m, reset, buffer mode,
+    yield_on_remainder).run: the adapter the sequence wraps around itself cuts the flow into blocks
+    of m; the sequence is its element."""
     kind, n = cfg["kind"], cfg["n"]
     case = dict(cfg)
     case.update({"law": "frs-run", "m": m, "len": length})
+    default = (oreset, obuffer, oyor) == (False, "input", False)
+    if not default:
+        case.update({"oreset": oreset, "obuffer": obuffer, "oyor": oyor})
+    okw = _outer_kw((m, oreset, obuffer), oyor)
     values = M.flow_values(kind, length)
-    usable = [_pre(v) for v in values[:(length // m) * m]]
-    expected = [_post(r) for r in M.concat(M.ref_blocks(kind, usable, n, cfg["reset"], False, "fill"))]
+    # the values of the complete outer blocks (and of the final partial one with yield_on_remainder)
+    # reach the inner adapter; it yields for its own complete blocks of them
+    usable = [_pre(v) for v in (values if oyor else values[:(length // m) * m])]
+    expected = None
+    if not oreset or m % n == 0:
+        # outer reset: the sequence's reset is "Reset the FillRequest element", whose reset is "Reset
+        # el (ignoring the initialization setting)": when an outer block is a whole number of inner
+        # blocks this is a reset of the element after every (m / n)-th block. What a reset in the
+        # middle of an inner block means for that block the statement does not say: there only the
+        # differential oracle below is used.
+        expected = [_post(r) for r in M.concat(M.ref_blocks(
+            kind, usable, n, cfg["reset"], False, "fill", reset_every=(m // n) if oreset else None))]
     rel = _relation(m, n)
     problem = None
     got = None
     try:
         fr, _ = build_fr(cfg)
-        frs = lena.core.FillRequestSeq(_pre, fr, _post, bufsize=m, reset=False, buffer_input=True)
+        frs = lena.core.FillRequestSeq(_pre, fr, _post, **okw)
         with step_budget(run_limit(length)) as st:
             got = list(frs.run(iter(values)))
         res.maximum("lena_lines_in_one_run", st["n"])
@@ -718,8 +852,24 @@ def judge_frs(res, cfg, m, length):
         problem = ("call-does-not-return", "FillRequestSeq.run exceeded the step budget")
     except Exception as e:  # noqa
         problem = ("exception", "FillRequestSeq.run raised %s" % type(e).__name__)
-    if problem is None and got != expected:
+    if problem is None and expected is not None and got != expected:
         problem = ("results-differ", got)
+    if problem is None and not default:
+        # differential: run() against a twin sequence that is filled, requested and reset block by
+        # block here (the sequence as the wrapped element of the statement's first sentence)
+        try:
+            fr2, _ = build_fr(cfg)
+            twin = lena.core.FillRequestSeq(_pre, fr2, _post, **okw)
+            with step_budget(run_limit(length)):
+                expected2 = _element_by_blocks(twin, values, m, oreset, oyor)
+            res.count("sequence_runs_compared_with_twin")
+            if got != expected2:
+                problem = ("run-differs-from-sequence-driven-block-by-block", got)
+                expected = expected2
+        except StepBudgetExceeded:
+            problem = ("call-does-not-return", "fill/request/reset of the twin exceeded the step budget")
+        except Exception as e:  # noqa
+            problem = ("exception", "fill/request/reset of the twin raised %s" % type(e).__name__)
     nontrivial = length > n and rel != "equal"
     res.case(nontrivial=nontrivial, outcome=(kind, n, cfg["reset"], repr(got)))
     res.traces += 1 if problem is None else 0
@@ -728,6 +878,9 @@ def judge_frs(res, cfg, m, length):
     if problem is not None:
         cause = {"law": "fillrequestseq-run", "defect": problem[0], "outer_bufsize": rel,
                  "kind_class": M.kind_class(kind), "buffer": cfg["buffer"], "reset": cfg["reset"]}
+        if not default:
+            cause.update({"sequence_reset": oreset, "sequence_buffer": obuffer,
+                          "sequence_yield_on_remainder": oyor})
         res.violation(case, problem[1], expected, cause)
 
 
@@ -755,23 +908,45 @@ def run_shard(p, tier):
                         judge_run(res, cfg, length, with_none=True)
     elif drv == "split":
         n = p["n"]
-        for cfg in configs(p["kind"], n):
-            for form in ("bare", "tuple"):
+        if p.get("form") == "seq":
+            oreset, obuffer = p["outer"]
+            variants = [("seq", o) for o in outer_options(n, "ends") if o[1:] == (oreset, obuffer)]
+        else:
+            variants = [("bare", OUTER_DEFAULT), ("tuple", OUTER_DEFAULT)]
+        for cfg0 in configs(p["kind"], n):
+            for form, outer in variants:
+                cfg = cfg0
+                if form == "seq":
+                    cfg = dict(cfg0)
+                    cfg["outer"] = list(outer)      # always explicit for this form
+                blocks = d["seq_len"] if form == "seq" else d["split_len"]
                 for B in _split_bufsizes(n):
                     width = max(n, B if B not in (None, 1000) else n)
-                    for length in range(0, d["split_len"] * width + 2):
+                    for length in range(0, blocks * width + 2):
                         judge_split(res, cfg, form, B, length)
     elif drv == "frs":
         n = p["n"]
-        for kind in ("store", "sum", "freq"):
+        if "outer" in p:
+            options = [tuple(p["outer"])]
+        else:
+            options = [(False, "input", False)]
+        for kind in SEQ_KINDS:
             for cfg in configs(kind, n):
                 if cfg["yor"]:
                     continue
-                for m in range(1, 2 * n + 2):
-                    for length in range(0, d["split_len"] * max(n, m) + 2):
-                        judge_frs(res, cfg, m, length)
+                for oreset, obuffer, oyor in options:
+                    for m in range(1, 2 * n + 2):
+                        for length in range(0, d["split_len"] * max(n, m) + 2):
+                            judge_frs(res, cfg, m, length, oreset, obuffer, oyor)
     elif drv == "word":
-        if p.get("names"):
+        if "outer" in p:
+            # the options of the sequence: every combination but the one the longer words have
+            for outer in outer_options(p["n"], "all"):
+                if outer == OUTER_DEFAULT or list(outer[1:]) != list(p["outer"]):
+                    continue
+                for cfg in configs(p["kind"], p["n"]):
+                    explore_words(res, with_outer(cfg, outer), "frs", d["Louter"])
+        elif p.get("names"):
             for names in M.NAMES[1:]:
                 for cfg in configs(p["kind"], p["n"], names):
                     explore_words(res, cfg, "bare", d["Lnames"])
@@ -807,7 +982,8 @@ def replay(case):
     elif law == "split":
         judge_split(res, cfg, case["form"], case["B"], case["len"])
     elif law == "frs-run":
-        judge_frs(res, cfg, case["m"], case["len"])
+        judge_frs(res, cfg, case["m"], case["len"], bool(case.get("oreset", False)),
+                  case.get("obuffer", "input"), bool(case.get("oyor", False)))
     return result_violations(res)
 
 
@@ -817,12 +993,15 @@ LEVEL_TEXT = ("explicit-state exploration of the real FillRequest fill/request m
               "with a block reference model that drives a twin of the wrapped element (also through "
               "FillRequestSeq, Split and lena.flow.Zip, up to length 9 / 11, and for elements whose methods "
               "are given under other names, with and without decoys under the default names, up to "
-              "length 8 / 10); plus exhaustive "
+              "length 8 / 10, and through a FillRequestSeq with every combination of its own bufsize "
+              "(1, n, n+1), reset and buffer mode, up to length 7 / 9); plus exhaustive "
               "enumeration of run() over all flow lengths, of Split(bufsize=B) around a FillRequest "
-              "branch for B in 1..2n+1, 1000, None, and of FillRequestSeq.run for outer bufsizes "
-              "1..2n+1; a sys.settrace step watchdog turns non-termination into an observation")
+              "branch (bare, tuple, or a user-made FillRequestSeq with options of its own) for B in "
+              "1..2n+1, 1000, None, and of FillRequestSeq.run for outer bufsizes 1..2n+1 with every reset, "
+              "buffer mode and yield_on_remainder of the sequence (with reset also against a twin sequence "
+              "driven block by block); a sys.settrace step watchdog turns non-termination into an observation")
 LEVEL_NOTE = ("bounded: histories up to the stated length, bufsize up to 5 (thorough 6), ten element kinds, "
-              "three method namings; request() consumed completely except by Zip for its second sequence "
+              "three method namings, FillRequestSeq options bufsize x reset x buffer mode; request() consumed completely except by Zip for its second sequence "
               "(suspended after the last result); for yield_on_remainder=True under fill/request only termination "
               "and value accounting are judged (the statement fixes exact results for "
               "yield_on_remainder off only)")
